@@ -35,5 +35,8 @@ finally:
     subprocess.run("git -C /repo worktree remove --force %s" % wt, shell=True, capture_output=True)
 with open("/verif/seeded/RESULTS.md", "w") as f:
     f.write("| seeded change | property | detected by (quick, seed 1) | not detected by |\n|---|---|---|---|\n")
-    for r in rows:
-        f.write("| %s | %s | %s | %s |\n" % r)
+    for d in sorted(glob.glob("/verif/seeded/C*_m*")):
+        m = json.load(open(d + "/meta.json"))
+        if "detected_by" not in m:
+            continue
+        f.write("| %s | %s | %s | %s |\n" % (os.path.basename(d), m["property"], ",".join(x["check"] for x in m["detected_by"]) or "-", ",".join(x["check"] for x in m.get("not_detected_by", [])) or "-"))
